@@ -245,6 +245,10 @@ func simShareBytes(kind string, P []*big.Int, to int) [][]byte {
 		return nil
 	case "bad":
 		return [][]byte{dkgMsgShare(dkgMod(new(big.Int).Add(s, big.NewInt(1))))}
+	case "neg": // the exact negation r - s: [r - s] g2 = -[s] g2 has the same x coordinate as the right public share
+		return [][]byte{dkgMsgShare(dkgMod(new(big.Int).Neg(s)))}
+	case "plus-r-half": // s + (r-1)/2: another structured relation to the right share
+		return [][]byte{dkgMsgShare(dkgMod(new(big.Int).Add(s, new(big.Int).Rsh(dkgR, 1))))}
 	case "trunc":
 		// the share that matches the vector with its last coefficient dropped (what a reader that
 		// stops at a malformed last point is left with)
@@ -283,6 +287,8 @@ func simAnswerBytes(kind string, P []*big.Int, c int, n int) [][]byte {
 		return nil
 	case "bad":
 		return [][]byte{dkgMsgAnswer(c, dkgMod(new(big.Int).Add(s, big.NewInt(1))))}
+	case "neg": // the exact negation of the right share
+		return [][]byte{dkgMsgAnswer(c, dkgMod(new(big.Int).Neg(s)))}
 	case "zero":
 		return [][]byte{dkgMsgAnswer(c, new(big.Int))}
 	case "ger":
